@@ -75,7 +75,7 @@ pub fn run_prop(prop: &Prop, tier: Tier, only_part: Option<&str>) -> i32 {
   let threads = default_threads();
   let (wall_cap_total, run_budget) = match tier {
     Tier::Quick => (
-      Duration::from_secs(env_u64("DGMC_QUICK_WALL_S", 40)),
+      Duration::from_secs(env_u64("DGMC_QUICK_WALL_S", 150)),
       Duration::from_secs(20),
     ),
     Tier::Thorough => (
